@@ -14,7 +14,7 @@ import (
 	"time"
 )
 
-var safetyKinds = map[string]bool{"idx": true, "slice": true, "assert": true, "div": true, "nilmap": true, "ovf": true, "conv": true, "makeslice": true, "panic": true, "nilptr": true, "hash": true}
+var safetyKinds = map[string]bool{"idx": true, "slice": true, "assert": true, "div": true, "nilmap": true, "ovf": true, "conv": true, "makeslice": true, "panic": true, "nilptr": true, "hash": true, "cmp": true}
 
 // nameObligations assigns stable names: <func>/<kind>#<ordinal in source order among that kind>.
 func (fx *FnExec) nameObligations() {
